@@ -93,11 +93,22 @@ def lateS (x : Exts) (cfg : Cfg) (st : MdSt) (stash : List Str) (root : Node) (l
           match TreeProc.unescapeTree t with
           | none => .err
           | some u =>
-            .ok u { log := log, html := xs.st.html, fn := xs.fn, valid := true, toc := side.2, tocTokens := side.1 }
+            .ok u { log := log, html := xs.st.html, fn := xs.fn, valid := true, toc := side.2, tocTokens := side.1,
+                    metaData := st.metaData }
 
 /-- the block parser of a conversion from the carried log: `parser.parseDocument(lines)` -/
 def docParseS (x : Exts) (cfg : Cfg) (log : Block.Refs) (text : Str) : Option (Node × Block.Refs) :=
   Block.parseChunk (parseBlocksXT x.tables x.blockCfg cfg.tab (fuelForX text.length)) [] log (Node.el "div") text
+
+theorem treePS_stages (x : Exts) (cfg : Cfg) (st : MdSt) (prep : FootnotesTree.R (Str × List Str)) :
+    treePS x cfg st prep =
+      match prep with
+      | .oof => .oof
+      | .ood => .ood
+      | .ok (text, stash) =>
+        match docParseS x cfg st.log text with
+        | none => .oof
+        | some (root, log) => lateS x cfg st stash root log := rfl
 
 theorem treeS_stages (x : Exts) (cfg : Cfg) (st : MdSt) (src : Str) :
     treeS x cfg st src =
